@@ -4,7 +4,7 @@
 #   demo passes without / fails with the patch, 600/600 baseline tests pass with it, and runs the named checks
 #   (quick tier) against the patched scratch copy.  Stores everything under /verif/seeded/<PROP>-<variant>/.
 P=$1; X=$2; shift 2; CHECKS=${@:-$P}
-SRC=/tmp/seed/$P-out/$X
+SRC=/tmp/seed/$P-out/$X; [ -f $SRC/patch.diff ] || SRC=/verif/seeded_pending/$P-$X; [ -f $SRC/patch.diff ] || SRC=/verif/seeded/$P-$X
 DST=/verif/seeded/$P-$X
 [ -f $SRC/patch.diff ] || { echo "no $SRC/patch.diff"; exit 2; }
 S=$(mktemp -d /tmp/seedchk-XXXXXX)
@@ -19,8 +19,8 @@ echo "demo without patch: exit $D0; with patch: exit $D1"
 T=$(timeout 900 /verif/tools/repo_tests.sh $S | head -3 | tr '\n' ' ')
 echo "tests with patch: $T"
 mkdir -p $DST
-cp $SRC/patch.diff $SRC/demo.py $DST/
-[ -f $SRC/notes.md ] && cp $SRC/notes.md $DST/
+[ "$SRC" = "$DST" ] || cp $SRC/patch.diff $SRC/demo.py $DST/
+[ "$SRC" != "$DST" ] && [ -f $SRC/notes.md ] && cp $SRC/notes.md $DST/
 RES=""
 for c in $CHECKS; do
   OUT=$(cd /verif && VERIF_REPO=$S timeout 1500 ./check $c --tier quick 2>&1 | grep -v '^KNOWN' | cut -c1-300)
